@@ -25,7 +25,8 @@ import c14_impl as I
 import c14_decks as D
 from common import cn, cpair, clist
 
-THEOREMS = []      # filled below, after the definitions
+THEOREMS = ['C14_squeeze_closed_form', 'C14_content_layout',
+            'C14_cards_grouping', 'C14_cards_layout']
 TRUSTED = [
     'hand-written model coq/C14/Model.v (modelled, tied by execution only); '
     'regexes re-implemented as scanners: tied exhaustively on short strings '
